@@ -9,6 +9,7 @@ CONSTANTS
  DelayBeforeStart = FALSE
  CancelInPlace = TRUE
  ForgetDiscarded = TRUE
+ TolerantCompletion = TRUE
  DropLateBoxes = FALSE
  Record = FALSE
 INVARIANT NoHang
